@@ -82,6 +82,12 @@ def cases(tier, seed):
         idx += 1
         c = dict(cfg); c["iteration_limit"] = 60
         out.append({"spec": spec, "cfg": c, "sc": sc})
+    # non-default tolerances, gains, unvalidated input and a user-supplied active-set rule on every spec
+    for spec in specs:
+        for vi in range(len(G.PARAM_VARIANTS)):
+            for ctl in ("DistanceRatio", "Exact", "ResiduumRatio"):
+                c = default(); c["control"] = ctl; c["iteration_limit"] = 60; c["pv"] = vi
+                out.append({"spec": spec, "cfg": c, "sc": None})
     # long horizon: vetoing / growing penalties with controllers that never shrink the step
     H = 400 if tier == "quick" else 2000
     for spec in (G.core_specs()[:3] + G.adversarial_specs()[:3]):
@@ -117,6 +123,7 @@ def apply_opts(cfg):
 def run_case(case):
     from pgfmc.drive.run import outcome_of
 
+    case = G.with_variant(case)
     cfg, lvl = apply_opts(case["cfg"])
     ctx = G.execute({"spec": case["spec"], "cfg": cfg, "sc": case["sc"]}, log_level=lvl)
     if ctx.setup_error is not None:
@@ -129,7 +136,7 @@ def run_case(case):
         return {"outcome": "setup-crash:" + ei["cls"], "key": None,
                 "violations": [M.V(f"C06|setup_crash|{ei['cls']}|{ei['site']}", f"Solver construction died: {ei['cls']}: {ei['msg']}")], "stats": {}}
     viol = M.mon_c06(ctx.rec)
-    return {"outcome": outcome_of(ctx.rec), "key": f"{case['spec']['tag']}|{key(case['cfg'])}|{ctx.weights}", "violations": viol,
+    return {"outcome": outcome_of(ctx.rec), "key": f"{case['spec']['tag']}|{key(case['cfg'])}|{ctx.weights}|{sorted((k, str(v)[:12]) for k, v in (case['cfg'].get('params') or {}).items())}", "violations": viol,
             "stats": {"it": len(ctx.rec.trials)}}
 
 
